@@ -45,7 +45,8 @@ class Func(object):
 
     def walk(self, into_nested=False):
         """All nodes of the body; nested function/class bodies excluded unless asked."""
-        stack = list(self.node.body)
+        nested = (ast.FunctionDef, ast.AsyncFunctionDef, ast.ClassDef, ast.Lambda)
+        stack = [s for s in self.node.body if into_nested or not isinstance(s, nested)]
         while stack:
             n = stack.pop()
             yield n
